@@ -234,6 +234,7 @@ def _units(src, fams, extra=None, ld=None):
     return out
 
 CHECKS["C13"] = dict(
+    deadline=dict(quick=240, thorough=900),
     title="ordered lists are linearizable sets",
     units=_units("harness/sets_lists.cpp", [1, 2, 3, 4, 5, 6, 7]),
     rule=SET_RULE,
@@ -244,6 +245,7 @@ CHECKS["C13"] = dict(
     level_text="Exhaustive within bounds on the real lists; Wing-Gong linearizability check of every complete execution against a sequential map.",
 )
 CHECKS["C14"] = dict(
+    deadline=dict(quick=240, thorough=900),
     title="hash sets are linearizable incl. growth",
     units=_units("harness/sets_hash.cpp", [1, 2, 3, 4, 5, 6]),
     rule=SET_RULE,
@@ -256,6 +258,7 @@ CHECKS["C14"] = dict(
     level_text="Exhaustive within bounds on the real hash sets incl. programs that race with table growth, bucket initialisation and slot expansion.",
 )
 CHECKS["C15"] = dict(
+    deadline=dict(quick=240, thorough=900),
     title="skip lists and trees are linearizable ordered sets",
     units=[dict(name="trees1-s1", src="harness/sets_trees.cpp", cxxflags=["-DFAMILY=1"], args=["--script", "1"]),
            dict(name="trees1-s0", src="harness/sets_trees.cpp", cxxflags=["-DFAMILY=1"], args=["--script", "0"], thorough_only=True),
@@ -273,6 +276,7 @@ CHECKS["C15"] = dict(
     level_text="Exhaustive within bounds on the real skip lists and trees; operations of EllenBinTree/Bronson are long, so their quick tier runs a thinner program set.",
 )
 CHECKS["C18"] = dict(
+    deadline=dict(quick=240, thorough=900),
     title="quiescent structure is well-formed",
     units=[dict(name="lists1", src="harness/sets_lists.cpp", cxxflags=["-DFAMILY=1"], args=["--property", "C18"], tier_args=dict(quick=["--bound", "1"])),
            dict(name="lists3", src="harness/sets_lists.cpp", cxxflags=["-DFAMILY=3"], args=["--property", "C18"], tier_args=dict(quick=["--bound", "1"])),
@@ -292,6 +296,7 @@ CHECKS["C18"] = dict(
 )
 
 CHECKS["C16"] = dict(
+    deadline=dict(quick=240, thorough=900),
     title="lock-based hash containers across resizes",
     units=_units("harness/sets_lock.cpp", [1, 2, 3, 4]),
     rule=SET_RULE,
